@@ -105,7 +105,7 @@ fn check_mult(cx: &mut Ctx, n: &[u8; 32], pt: &[u8; 32], sclass: &str, pclass: &
     if call(cx, "C05|crypto_scalarmult", "crypto_scalarmult", case, || crypto_scalarmult(&mut q, n, pt)).is_none() {
         return;
     }
-    let coarse = if pclass.starts_with("loworder") { "loworder" } else if pclass.starts_with("random") { "random_encoding" } else if pclass.starts_with("basemult") { "prime_subgroup" } else { "edge_encoding" };
+    let coarse = if pclass.starts_with("loworder") { "loworder" } else if pclass.starts_with("random") { "random_encoding" } else if pclass.starts_with("basemult") { "prime_subgroup" } else if pclass.starts_with("neighbour") { "neighbour_of_special" } else { "edge_encoding" };
     if rc == 0 {
         expect_eq(cx, &format!("C05|crypto_scalarmult|mismatch_vs_libsodium|{}", coarse), &q, &want, case);
     } else {
@@ -284,6 +284,44 @@ pub fn run(cx: &mut Ctx) {
                 }
                 cx.cover("beforenm", "locked_and_readonly_locked_containers");
             }
+        }
+    }
+
+    // ------------------------------------------------ one-bit and one-byte neighbours of every special encoding
+    // (a recogniser for "the base point", "a low-order point", "u >= p" that looks at too few bits is right on the
+    // special value itself and on random encodings, and wrong exactly here)
+    if !only_ni {
+        let mut bases: Vec<(String, [u8; 32])> = specials.iter().filter(|(n, _)| !n.contains("|bit255") && !n.starts_with("rfc7748")).cloned().collect();
+        let mut nine = [0u8; 32];
+        nine[0] = 9;
+        if !bases.iter().any(|(_, b)| *b == nine) {
+            bases.push(("u=9".into(), nine));
+        }
+        let per_byte = cx.tier.pick(1usize, 2, 24);
+        for (bn, base) in &bases {
+            idx += 1;
+            if !cx.mine(idx) {
+                continue;
+            }
+            let mut rng = cx.rng.fork(idx);
+            let n: [u8; 32] = rng.arr();
+            cx.key(&format!("neighbours of {}", bn));
+            for bit in 0..256usize {
+                let mut pt = *base;
+                pt[bit / 8] ^= 1 << (bit % 8);
+                check_mult(cx, &n, &pt, "random", "neighbour:one_bit", bit % 64 == 0);
+            }
+            for byte in 0..32usize {
+                for _ in 0..per_byte {
+                    let mut pt = *base;
+                    let v = rng.below(255) as u8 + 1;
+                    pt[byte] ^= v;
+                    let n2: [u8; 32] = rng.arr();
+                    check_mult(cx, &n2, &pt, "random", "neighbour:one_byte", false);
+                }
+            }
+            cx.cover("point_class", "neighbour_of_special");
+            cx.cover("neighbours_of", bn);
         }
     }
 
@@ -471,12 +509,38 @@ pub fn run(cx: &mut Ctx) {
             let kp: KeyPair<StackByteArray<32>, StackByteArray<32>> = KeyPair::from_slices(&mypk, &mysk).unwrap();
             let peer_s = StackByteArray::<32>::from(peer);
             let r = if role == "client" {
-                call(cx, "C05|Session::new_client", "Session::new_client", case, || Session::<StackByteArray<32>>::new_client(&kp, &peer_s).map(|_| ()))
+                call(cx, "C05|Session::new_client", "Session::new_client", case, || Session::<StackByteArray<32>>::new_client(&kp, &peer_s).map(|s| (*s.rx_as_array(), *s.tx_as_array())))
             } else {
-                call(cx, "C05|Session::new_server", "Session::new_server", case, || Session::<StackByteArray<32>>::new_server(&kp, &peer_s).map(|_| ()))
+                call(cx, "C05|Session::new_server", "Session::new_server", case, || Session::<StackByteArray<32>>::new_server(&kp, &peer_s).map(|s| (*s.rx_as_array(), *s.tx_as_array())))
             };
             if let Some(r) = r {
                 expect(cx, &format!("C05|Session::new_{}|decision_differs_from_libsodium", role), r.is_ok() == want.is_some(), case);
+                // and, where it accepts, derive the same keys (the peer key is hashed exactly as presented)
+                if let (Ok((orx, otx)), Some((wrx, wtx))) = (&r, &want) {
+                    expect_eq(cx, &format!("C05|Session::new_{}|mismatch_vs_libsodium|{}", role, coarse), &[*orx, *otx].concat(), &[*wrx, *wtx].concat(), case);
+                }
+            }
+            let r2 = if role == "client" {
+                call(cx, "C05|KeyPair::kx_new_client_session", "KeyPair::kx_new_client_session", case, || kp.kx_new_client_session::<Vec<u8>>(&peer_s).map(|s| s.into_parts()))
+            } else {
+                call(cx, "C05|KeyPair::kx_new_server_session", "KeyPair::kx_new_server_session", case, || kp.kx_new_server_session::<Vec<u8>>(&peer_s).map(|s| s.into_parts()))
+            };
+            if let Some(r2) = r2 {
+                expect(cx, &format!("C05|KeyPair::kx_new_{}_session|decision_differs_from_libsodium", role), r2.is_ok() == want.is_some(), case);
+                if let (Ok((orx, otx)), Some((wrx, wtx))) = (&r2, &want) {
+                    expect_eq(cx, &format!("C05|KeyPair::kx_new_{}_session|mismatch_vs_libsodium|{}", role, coarse), &[orx.as_slice(), otx.as_slice()].concat(), &[*wrx, *wtx].concat(), case);
+                }
+            }
+            let r3 = if role == "client" {
+                call(cx, "C05|Session::new_client_with_defaults", "Session::new_client_with_defaults", case, || dryoc::kx::Session::new_client_with_defaults(&kp, &peer_s).map(|s| s.into_parts()))
+            } else {
+                call(cx, "C05|Session::new_server_with_defaults", "Session::new_server_with_defaults", case, || dryoc::kx::Session::new_server_with_defaults(&kp, &peer_s).map(|s| s.into_parts()))
+            };
+            if let Some(r3) = r3 {
+                expect(cx, &format!("C05|Session::new_{}_with_defaults|decision_differs_from_libsodium", role), r3.is_ok() == want.is_some(), case);
+                if let (Ok((orx, otx)), Some((wrx, wtx))) = (&r3, &want) {
+                    expect_eq(cx, &format!("C05|Session::new_{}_with_defaults|mismatch_vs_libsodium|{}", role, coarse), &[orx.as_slice(), otx.as_slice()].concat(), &[*wrx, *wtx].concat(), case);
+                }
             }
         }
         cx.cover("kx", coarse);
